@@ -2,6 +2,7 @@ package main
 
 import (
 	"bytes"
+	"encoding/json"
 
 	cose "github.com/veraison/go-cose"
 )
@@ -108,6 +109,31 @@ func decodeKind(kind string, b []byte) (J, error) {
 		return projectSig((*cose.Signature)(&m)), nil
 	}
 	panic("decodeKind: unknown kind " + kind)
+}
+
+// priorImage is a valid value of the kind whose buckets hold parameters (IV, a kid, content type) that clash or mix with later ones.
+func priorImage(kind string) []byte {
+	prot := []byte{0x48, 0xa3, 0x01, 0x26, 0x03, 0x00, 0x05, 0x41, 0x01} // bstr {1: -7, 3: 0, 5: h'01'}
+	unprot := []byte{0xa2, 0x04, 0x42, 0x6b, 0x31, 0x18, 0x63, 0x07}     // {4: 'k1', 99: 7}
+	sig3 := append(append(append([]byte{0x83}, prot...), unprot...), 0x42, 0xaa, 0xbb)
+	switch kind {
+	case "prot":
+		return prot
+	case "unprot":
+		return []byte{0xa3, 0x04, 0x42, 0x6b, 0x31, 0x05, 0x41, 0x01, 0x18, 0x63, 0x07} // {4: 'k1', 5: h'01', 99: 7}
+	case "sign1", "sign1u":
+		body := append(append(append([]byte{0x84}, prot...), unprot...), 0x41, 0x01, 0x42, 0xaa, 0xbb)
+		if kind == "sign1" {
+			return append([]byte{0xd2}, body...)
+		}
+		return body
+	case "sign":
+		body := append(append(append([]byte{0xd8, 0x62, 0x84}, prot...), unprot...), 0x41, 0x01, 0x81)
+		return append(body, sig3...)
+	case "sig", "csig":
+		return sig3
+	}
+	panic("priorImage: " + kind)
 }
 
 // decodeNoRaw decodes b and projects the value without raw bytes (content only).
@@ -219,6 +245,26 @@ func init() {
 			ev["panic"] = p
 		} else {
 			ev["dec"] = okErr(decErr)
+		}
+		// the same image decoded into a destination that was used before (it holds a valid value of the same kind with other parameters):
+		// verdict and value must be those of the fresh destination
+		ev["decused"], ev["usedsame"] = "n/a", true
+		if p := guard(func() {
+			dst := newOfKind(kind)
+			if err := unmarshalInto(dst, priorImage(kind)); err != nil {
+				fatal("hdrgrid: prior value of kind %s does not decode: %v", kind, err)
+			}
+			err := unmarshalInto(dst, image)
+			ev["decused"] = okErr(err)
+			if err == nil && decErr == nil {
+				fresh := newOfKind(kind)
+				_ = unmarshalInto(fresh, image)
+				a, _ := json.Marshal(projectObj(dst))
+				b, _ := json.Marshal(projectObj(fresh))
+				ev["usedsame"] = bytes.Equal(a, b)
+			}
+		}); p != "" {
+			ev["decused"] = "panic"
 		}
 		// round trip of the library's own output (C08): decodable, and re-encoding gives the same bytes
 		ev["outdec"] = "n/a"
